@@ -385,6 +385,28 @@ func (c *Ctx) deliveryLoop(rule string) {
 				"a batch with the position's own id is held back (the staleness test is not strict): the remainder of the reply the client was reading is never delivered")
 		}
 	}
+	// the client's position is only ever moved to a batch that is being delivered: every assignment to it in the reader takes
+	// its value from GetNext's result (clamping it to what this node has rewinds the client)
+	{
+		nAsg := 0
+		for _, v := range g.Nodes() {
+			as, ok := v.Node.(*ast.AssignStmt)
+			if !ok {
+				continue
+			}
+			for i, l := range as.Lhs {
+				id, ok := l.(*ast.Ident)
+				if !ok || astx.Obj(info, id) != pos || as.Tok == token.DEFINE && info.Defs[id] != nil {
+					continue
+				}
+				nAsg++
+				okSrc := len(as.Rhs) == len(as.Lhs) && rooted(as.Rhs[i], res)
+				r.Check(okSrc, rule, gm.Name(), "the position moves only to a delivered batch", c.P.Pos(as.Pos()), "<position> = <batch>[…].Id",
+					"the reader overwrites the client's position with something that is not the batch it is about to deliver (e.g. the newest message this node has): on a node that is behind, the client is rewound and receives messages it already has")
+			}
+		}
+		_ = nAsg
+	}
 	// the first element of GetNext's result is read only where the result is known to be non-empty (GetNext returns an empty
 	// slice when the request was cancelled)
 	{
